@@ -92,6 +92,17 @@ def ser_rules(ctx, flavours):
         ends = [(bi, t) for bi, t in calls_in(ser) if t['callee'] == 'serde::ser::SerializeTuple::end']
         if len(ends) != 1:
             why.append('tuple not ended exactly once')
+        else:
+            # the declared length is honoured on every path: each element write dominates end(), in order, outside any loop
+            for i, (bi, t) in enumerate(wel):
+                if not scfg.dominates(bi, ends[0][0]):
+                    why.append('element %d is not written on every path to end() although the tuple is declared with 2 elements' % i)
+                if any(bi in body for body in scfg.loops().values()):
+                    why.append('element %d is written inside a loop' % i)
+            if len(wel) == 2 and not scfg.dominates(wel[0][0], wel[1][0]):
+                why.append('element writes are not sequenced')
+            if tup and not scfg.dominates(tup[0][0], wel[0][0] if wel else ends[0][0]):
+                why.append('serialize_tuple does not precede the elements')
         out.append(Obl('SER1', ser['q'], ser['span'], 'wire shape: 2-tuple (%s) written = read' % ', '.join(wt), not why, '; '.join(why) if why else 'ok'))
         # ---- decompose structure
         dpv, dcfg = F.prov(dec), F.cfg(dec)
